@@ -818,6 +818,73 @@ func ruleVLiteral(c *engine.Context) *report.Rule {
 			if !nonLiteral {
 				r.Violation("equality builder "+load.FuncName(bs.fn)+": deep equality branch", p.RelPos(bs.call.Pos()), "deep equality is constructed on a path where the right operand may be a literal")
 			}
+			// neither operand may be a literal on any path to this construction: deep equality does
+			// not normalise numbers, so `literal == path` must have gone to the direct comparison
+			paths, complete := enumPaths(bs.fn, 256)
+			litT := literalQueryType(p)
+			if litT == nil || !complete {
+				r.Oblige(false)
+				r.Undischarged("equality builder "+load.FuncName(bs.fn)+": operand kinds", p.RelPos(bs.call.Pos()), "the literal operand type or the builder's paths could not be determined")
+				break
+			}
+			for _, fp := range paths {
+				if !fp.contains(bs.call) {
+					continue
+				}
+				r.Instances++
+				notLit := map[ssa.Value]bool{}
+				isLit := map[ssa.Value]bool{}
+				for _, ec := range fp.conds {
+					ex, ok := ec.cond.(*ssa.Extract)
+					if !ok || ex.Index != 1 {
+						continue
+					}
+					ta, ok := ex.Tuple.(*ssa.TypeAssert)
+					if !ok || !ta.CommaOk {
+						continue
+					}
+					pt, ok := ta.AssertedType.(*types.Pointer)
+					if !ok || !types.Identical(pt.Elem(), litT) {
+						continue
+					}
+					// ta.X = load(FieldAddr(operand, paramField))
+					ld, ok := ta.X.(*ssa.UnOp)
+					if !ok {
+						continue
+					}
+					fa, ok := ld.X.(*ssa.FieldAddr)
+					if !ok {
+						continue
+					}
+					base := fp.resolveAt(fa.X, ta.Block())
+					if !ec.taken {
+						notLit[base] = true
+					} else {
+						isLit[base] = true
+					}
+				}
+				infeasible := false
+				for b := range notLit {
+					if isLit[b] {
+						infeasible = true // the same operand tested literal and non-literal
+					}
+				}
+				if infeasible {
+					r.Oblige(true)
+					continue
+				}
+				l, rr := fp.resolve(bs.left), fp.resolve(bs.right)
+				okL, okR := notLit[l], notLit[rr]
+				r.Oblige(okL && okR)
+				if !(okL && okR) {
+					which := "left"
+					if okL {
+						which = "right"
+					}
+					r.Violation("equality builder "+load.FuncName(bs.fn)+": deep equality with a possibly literal "+which+" operand", p.RelPos(bs.call.Pos()),
+						"on a path through %s the deep-equality comparator is built although the %s operand was not shown to be a non-literal: `path == literal` and `literal == path` then take different comparators, and deep equality does not convert json.Number, so the two spellings select differently on a document decoded with UseNumber", load.FuncName(bs.fn), which)
+				}
+			}
 		}
 	}
 	for _, k := range []string{"float64", "bool", "string", "nil"} {
@@ -1023,6 +1090,33 @@ func ruleVSingleRight(c *engine.Context) *report.Rule {
 				v := ec.taken != neg
 				flag[base] = &v
 			}
+			// an operand whose query was tested to be of a type that does not use the member list
+			// (a literal, a `$`-rooted operand) is member-independent whatever its flag says
+			indep := memberIndependentTypes(p)
+			for _, ec := range fp.conds {
+				ex, ok := ec.cond.(*ssa.Extract)
+				if !ok || ex.Index != 1 || !ec.taken {
+					continue
+				}
+				ta, ok := ex.Tuple.(*ssa.TypeAssert)
+				if !ok || !ta.CommaOk {
+					continue
+				}
+				pt, ok := ta.AssertedType.(*types.Pointer)
+				if !ok {
+					continue
+				}
+				nt, ok := pt.Elem().(*types.Named)
+				if !ok || !indep[nt] {
+					continue
+				}
+				if ld, ok := ta.X.(*ssa.UnOp); ok {
+					if fa, ok := ld.X.(*ssa.FieldAddr); ok {
+						t := true
+						flag[fp.resolveAt(fa.X, ta.Block())] = &t
+					}
+				}
+			}
 			// violation iff we cannot exclude (l.flag == true && r.flag == false)
 			lf, rf := flag[l], flag[rr]
 			safe := (lf != nil && !*lf) || (rf != nil && *rf)
@@ -1086,4 +1180,40 @@ func ownValidate(p *load.Program, C *types.Named) *ssa.Function {
 		return nil
 	}
 	return fn
+}
+
+// literalQueryType: the query type holding a constant list (its evaluation ignores root and member list).
+func literalQueryType(p *load.Program) *types.Named {
+	var out *types.Named
+	for fn := range queryComputeFuncs(p) {
+		rt := fn.Signature.Recv().Type()
+		if pt, ok := rt.(*types.Pointer); ok {
+			rt = pt.Elem()
+		}
+		nt, ok := rt.(*types.Named)
+		if !ok {
+			continue
+		}
+		st, ok := nt.Underlying().(*types.Struct)
+		if !ok || st.NumFields() != 1 || !isIfaceSliceT(st.Field(0).Type()) {
+			continue
+		}
+		out = nt
+	}
+	return out
+}
+
+// memberIndependentTypes: query types whose evaluation never reads the member list it is given.
+func memberIndependentTypes(p *load.Program) map[*types.Named]bool {
+	out := map[*types.Named]bool{}
+	for fn, list := range queryComputeFuncs(p) {
+		rt := fn.Signature.Recv().Type()
+		if pt, ok := rt.(*types.Pointer); ok {
+			rt = pt.Elem()
+		}
+		if nt, ok := rt.(*types.Named); ok && (list.Referrers() == nil || len(*list.Referrers()) == 0) {
+			out[nt] = true
+		}
+	}
+	return out
 }
